@@ -144,6 +144,8 @@ def build_topology(g, prop):
     tmpl = rng.choice(["chain", "chain", "fanin", "fanout", "diamond", "multi_src_out", "combiner", "sinkfanin", "parallel"])
     if prop in ("C08", "C09", "C10", "C15", "C17") and rng.random() < 0.3:
         tmpl = rng.choice(["contended_fanout", "contended_fanin"])
+    if prop in ("C09", "C17", "C03", "C10") and rng.random() < 0.2:
+        tmpl = "combiner"
     if prop == "C16":
         tmpl = "combiner"
     if prop in ("C08", "C15") and tmpl in ("combiner", "sinkfanin") and rng.random() < 0.6:
@@ -391,7 +393,7 @@ def inject_invalid(g, rng):
             if c:
                 n = rng.choice(c)
                 n["blocking"] = False
-                n["iat"] = 0
+                n["iat"] = rng.choice([0, 0, 0.0])
                 return {"kind": k, "where": n["id"]}
         if k == "negative-iat":
             c = [n for n in g.nodes if n["type"] == "source"]
